@@ -690,7 +690,7 @@ func (r *RootAssertionNode) AddComputation(expr ast.Expr) {
 						// a declaration available, so don't try to consume it
 						return true
 					}
-					switch argFunc := argFunc.Fun.(type) {
+					switch argFunc := ast.Unparen(argFunc.Fun).(type) {
 					case *ast.Ident:
 						if handleArgFuncIdent(argFunc) {
 							return consumeArgNoop
@@ -993,7 +993,7 @@ func getFuncIdent(expr *ast.CallExpr, fc *FunctionContext) *ast.Ident {
 	var funcLit *ast.FuncLit
 	// if ident is nil, check if the expr represents a FuncLit node
 	if ident == nil {
-		funcLit, _ = expr.Fun.(*ast.FuncLit)
+		funcLit, _ = ast.Unparen(expr.Fun).(*ast.FuncLit)
 	} else {
 		// check if the declaration the ident points to a function literal node
 		funcLit = getFuncLitFromAssignment(ident)
